@@ -757,7 +757,12 @@ def vmake_symbol(node, context):
 
 
 def parse(x):
-    return evaluate(parser(x))
+    tree = parser(x)
+    if tree is None:
+        raise opparse.Location(x, "<string>", 0, 0).syntax_error(
+            "Empty selector"
+        )
+    return evaluate(tree)
 
 
 def _find_eval_env(s, fr, skip):
